@@ -301,5 +301,5 @@ def gen_stream(rng, style=None, plain=False, doubling=None):
     # the other customary spellings of a drop-frame label
     seps = rng.choice([";;;", "...", ",,,", "::.", "::,", ";:;", ":;;"])
     feats.add("label_separators_" + seps)
-  return {"lines": lines, "df": df, "seps": seps, "parity": rng.random() < 0.8, "align": rng.choice([None, None, "left", "center", "right", "auto"]),
+  return {"lines": lines, "df": df, "seps": seps, "parity": rng.choice([True, True, True, False, "mixed"]), "align": rng.choice([None, None, "left", "center", "right", "auto"]),
           "features": sorted(feats), "style": style if not mixed else "mixed"}
